@@ -2,9 +2,13 @@
 package drv
 
 import (
+	"bytes"
 	"fmt"
+	"io"
 	"reflect"
 	"strings"
+	"time"
+	"unicode/utf8"
 
 	hessian "github.com/vogo/gohessian"
 	"verifharness/proj"
@@ -45,16 +49,39 @@ func Carrier(x interface{}) bool {
 	return t.PkgPath() == hessianPkg
 }
 
-// Call runs f, turning a panic into (recovered message, true).
+// Timeout bounds one library call; a call that does not return within it is
+// recorded as a hang (the goroutine is abandoned).
+var Timeout = 20 * time.Second
+
+// Hung is set once any call hung: later timings in this process are unreliable.
+var Hung bool
+
+// Call runs f, turning a panic into (recovered message, true).  A call that
+// does not return within Timeout yields ("hang", true).
 func Call(f func()) (msg string, panicked bool) {
-	defer func() {
-		if r := recover(); r != nil {
-			msg = fmt.Sprint(r)
-			panicked = true
-		}
+	type res struct {
+		msg string
+		p   bool
+	}
+	ch := make(chan res, 1)
+	go func() {
+		var r res
+		defer func() {
+			if x := recover(); x != nil {
+				r.msg = fmt.Sprint(x)
+				r.p = true
+			}
+			ch <- r
+		}()
+		f()
 	}()
-	f()
-	return
+	select {
+	case r := <-ch:
+		return r.msg, r.p
+	case <-time.After(Timeout):
+		Hung = true
+		return "hang: call did not return within " + Timeout.String(), true
+	}
 }
 
 func errStr(err error) string {
@@ -124,4 +151,117 @@ func b2i(b bool) int {
 		return 1
 	}
 	return 0
+}
+
+// CountingReader is a ByteRuneReader over a byte slice with no read-ahead:
+// Pos is exactly the number of octets the decoder has pulled.
+type CountingReader struct {
+	B   []byte
+	Pos int
+}
+
+func (r *CountingReader) Read(p []byte) (int, error) {
+	if r.Pos >= len(r.B) {
+		return 0, io.EOF
+	}
+	n := copy(p, r.B[r.Pos:])
+	r.Pos += n
+	return n, nil
+}
+
+func (r *CountingReader) ReadRune() (rune, int, error) {
+	if r.Pos >= len(r.B) {
+		return 0, 0, io.EOF
+	}
+	c, sz := utf8.DecodeRune(r.B[r.Pos:])
+	r.Pos += sz
+	return c, sz, nil
+}
+
+// Stream writes vals one after another through one encoder (api "enc") or one
+// serializer (api "ser") into one buffer, reads them back through one
+// decoder / serializer over a counting reader, and records offsets.
+func Stream(api string, vals []interface{}) proj.M {
+	ev := proj.M{"ev": "stream", "api": api}
+	var typMap map[string]reflect.Type
+	var nameMap map[string]string
+	all := make([]interface{}, len(vals))
+	copy(all, vals)
+	if msg, p := Call(func() { typMap, nameMap = hessian.ExtractTypeNameMap(all) }); p {
+		ev["xpanic"] = 1
+		ev["xmsg"] = ascii(msg)
+		nameMap, typMap = map[string]string{}, map[string]reflect.Type{}
+	} else {
+		ev["xpanic"] = 0
+	}
+	P := proj.New(nameMap)
+	ev["v"] = P.ProjectMany(vals)
+	buf := &bytes.Buffer{}
+	ends, werr := []int{}, []int{}
+	var enc *hessian.Encoder
+	var ser hessian.Serializer
+	if api == "enc" {
+		enc = hessian.NewEncoder(buf, nameMap)
+	} else {
+		ser = hessian.NewSerializer(typMap, nameMap)
+	}
+	wpanic := 0
+	for i, v := range vals {
+		var err error
+		_, p := Call(func() {
+			switch {
+			case api == "enc":
+				err = enc.WriteObject(v)
+			case i == 0:
+				err = ser.WriteTo(buf, v)
+			default:
+				err = ser.Write(v)
+			}
+		})
+		if p {
+			wpanic = 1
+		}
+		ends = append(ends, buf.Len())
+		werr = append(werr, b2i(err != nil || p))
+	}
+	out := append([]byte{}, buf.Bytes()...)
+	ev["out"], ev["ends"], ev["werr"], ev["wpanic"] = proj.Octets(out), ends, werr, wpanic
+	rd := &CountingReader{B: out}
+	var dec *hessian.Decoder
+	if api == "enc" {
+		dec = hessian.NewDecoder(rd, typMap)
+	}
+	rs := make([]interface{}, 0, len(vals))
+	used, rerr, carrier := []int{}, []int{}, []int{}
+	emsg := ""
+	for i := range vals {
+		var r interface{}
+		var err error
+		msg, p := Call(func() {
+			switch {
+			case api == "enc":
+				r, err = dec.ReadObject()
+			case i == 0:
+				r, err = ser.ReadFrom(rd)
+			default:
+				r, err = ser.Read()
+			}
+		})
+		bad := p || err != nil
+		if bad && emsg == "" {
+			emsg = errStr(err) + ascii(msg)
+		}
+		c := Carrier(r)
+		if bad || c {
+			r = nil
+		}
+		rs = append(rs, r)
+		used = append(used, rd.Pos)
+		rerr = append(rerr, b2i(bad))
+		carrier = append(carrier, b2i(c))
+	}
+	ev["r"] = P.ProjectMany(rs)
+	ev["used"], ev["rerr"], ev["carrier"], ev["dmsg"] = used, rerr, carrier, emsg
+	ev["T"] = P.Types
+	return ev
 }
